@@ -25,7 +25,7 @@ pub fn def() -> PropertyDef {
     PropertyDef {
         id: "C14",
         level: "exploration",
-        rule: "case = (sequence of 0–24 elements over all 9 Element variants, each 0–120 words that are unique markers m<idx>x<j> with generated sentence boundaries / newlines / stray whitespace / word lengths, empty texts, empty tables, images without alt text; parent_heading per element nearest / absent / any title of the sequence (stale or future) / a text no title has; title texts from a 3-entry pool (duplicates) or unique; max_tokens 1–96, overlap_tokens, merge_adjacent, merge_policy, propagate_headings, context_mode None/Heading/Contextual(Labeled|Prose), token counter WordProxyCounter or one of three harness counters implementing the public TokenCounter trait: additive per-word weights, non-additive ceil(chars/4), non-additive words+newlines). Every case is run through chunk() and chunk_with_graph(ElementGraph::build()). 40 % of the cases take max_tokens = summed cost of 1–4 consecutive elements -1…+2 (decisions at the boundary). Once the section-graph findings are listed, ~10 % of the cases keep orphan / stale headings after the first title, the rest use the partitioner's nearest-title headings there. Non-trivial: (>= 1 title and >= 1 element whose own cost exceeds max_tokens) or a non-additive counter; distinct by hash of the case.",
+        rule: "case = (sequence of 0–24 elements over all 9 Element variants, each 0–120 words that are unique markers m<idx>x<j> with generated sentence boundaries / newlines / stray whitespace / word lengths, empty texts, empty tables, images without alt text; parent_heading per element nearest / absent / any title of the sequence (stale or future) / a text no title has; title texts from a 3-entry pool (duplicates) or unique; max_tokens 1–96, overlap_tokens, merge_adjacent, merge_policy, propagate_headings, context_mode None/Heading/Contextual(Labeled|Prose), token counter WordProxyCounter or one of four harness counters implementing the public TokenCounter trait: additive per-word weights, non-additive ceil(chars/4), non-additive words+newlines, non-additive words+3 per newline). Every case is run through chunk() and chunk_with_graph(ElementGraph::build()). 40 % of the cases take max_tokens = summed cost of 1–4 consecutive elements -1…+2 (decisions at the boundary). Once the section-graph findings are listed, ~10 % of the cases keep orphan / stale headings after the first title, the rest use the partitioner's nearest-title headings there. Non-trivial: (>= 1 title and >= 1 element whose own cost exceeds max_tokens) or a non-additive counter; distinct by hash of the case.",
         assumptions: &[
             "identity of an output element = index in its first marker word, else its metadata.page (set to the input index); fragments of a split element are compared to the element after whitespace normalisation (whitespace-separated word sequences equal) — the splitter trims, the stated reading of 'concatenate back'",
             "budget clause is one-directional as the property states: !is_oversized => counter.count(chunk.text()) <= max_tokens with the injected counter; token_estimate == counter.count(chunk.text()) is taken from the doc comment of HybridChunk::token_estimate",
@@ -121,12 +121,24 @@ impl TokenCounter for WordsPlusSeps {
     }
 }
 
+/// non-additive, super-additive over "\n": words + 3 per newline character (a join costs more than the parts plus one)
+struct WordsPlusHeavySeps;
+impl TokenCounter for WordsPlusHeavySeps {
+    fn count(&self, text: &str) -> usize {
+        text.split_whitespace().count() + 3 * text.chars().filter(|&c| c == '\n').count()
+    }
+    fn name(&self) -> &'static str {
+        "harness-words-plus-3-per-newline"
+    }
+}
+
 fn counter_of(c: u8) -> Arc<dyn TokenCounter> {
     match c {
         0 => Arc::new(WordProxyCounter),
         1 => Arc::new(WeightedWords),
         2 => Arc::new(CharsQuarter),
-        _ => Arc::new(WordsPlusSeps),
+        3 => Arc::new(WordsPlusSeps),
+        _ => Arc::new(WordsPlusHeavySeps),
     }
 }
 fn counter_label(c: u8) -> &'static str {
@@ -134,7 +146,8 @@ fn counter_label(c: u8) -> &'static str {
         0 => "word-proxy",
         1 => "weighted-words(additive)",
         2 => "chars/4(non-additive)",
-        _ => "words+newlines(non-additive)",
+        3 => "words+newlines(non-additive)",
+        _ => "words+3*newlines(non-additive)",
     }
 }
 fn non_additive(c: u8) -> bool {
@@ -739,7 +752,7 @@ fn el_strategy() -> impl Strategy<Value = El> {
 /// element after the first title gets the partitioner's nearest-title heading.
 pub fn strategy(dirty_pct: u32) -> impl Strategy<Value = Case> {
     let max_tokens = prop_oneof![3 => 1u16..=8, 4 => 9u16..=40, 3 => 41u16..=96];
-    let counter = prop_oneof![3 => Just(0u8), 2 => Just(1u8), 3 => Just(2u8), 3 => Just(3u8)];
+    let counter = prop_oneof![3 => Just(0u8), 2 => Just(1u8), 3 => Just(2u8), 2 => Just(3u8), 3 => Just(4u8)];
     (
         prop::collection::vec(el_strategy(), 0..=24),
         max_tokens,
@@ -786,7 +799,7 @@ fn run(ctx: &Ctx) {
     let listed = ctx.known_sig(SIG_ORPHAN) || ctx.known_sig(SIG_ORDER);
     let dirty_pct = if listed { 18 } else { 60 }; // 18 % of the rolls ≈ 10 % of the cases actually contain such an element
     ctx.note(format!("generator: {dirty_pct} % of the cases keep generated (possibly orphan/stale) headings after the first title"));
-    ctx.run_sub("partition", ctx.tier.pick(6_000, 150_000), move || strategy(dirty_pct), check);
+    ctx.run_sub("partition", ctx.tier.pick(150_000, 1_000_000), move || strategy(dirty_pct), check);
 }
 
 fn replay(ctx: &Ctx, sub: &str, case: &Value) -> Result<Outcome, String> {
